@@ -27,8 +27,8 @@ type Result struct {
 	Exit    int
 	Stdout  string
 	Stderr  string
-	Hang    bool   // did not terminate within the horizon (killed)
-	ViaCLI  bool   // obtained from the real CLI binary
+	Hang    bool // did not terminate within the horizon (killed)
+	ViaCLI  bool // obtained from the real CLI binary
 	Elapsed time.Duration
 }
 
